@@ -239,7 +239,8 @@ impl<'a> Lexer<'a> {
                         let mut x: u32 = 0;
                         while let Some(cc) = self.peek().and_then(|d| d.to_digit(16)) {
                             self.next();
-                            x = 16 * x + cc;
+                            // saturate: an overlong escape must end as "too big", not as an overflow panic
+                            x = x.saturating_mul(16).saturating_add(cc);
                         }
                         match expected {
                             Some(c) => {
